@@ -249,6 +249,9 @@ def gen_item(rng, names=None, want_enum=None, allow_attrs=True, plain=False, abs
         return ''
     entry = rng.choice(['attr', 'attr', 'derive'])
     tlist = ', '.join(traits)
+    if has_T and allow_attrs and not plain and rng.random() < 0.15:
+        # a shared `bound(..)` list that keeps the default bounds (`..` anywhere in the list) and adds a predicate that always holds
+        tlist += rng.choice([f', bound(.., {T}: {SIZED})', f', bound({T}: {SIZED}, ..)', f', bound({T}: {SIZED}, .., {T}: {SIZED})'])
     head = f'#[derive_ex({tlist})]' if entry == 'attr' else f'#[derive(Ex)]\n#[derive_ex({tlist})]'
     if is_enum:
         nv = rng.choice([0, 1, 1, 2, 2, 3])
